@@ -737,7 +737,7 @@ fn generate(thorough: bool) -> Vec<Program> {
             for a in &t1s {
                 for b in &t2s {
                     let total = a.len() + b.len();
-                    if total > if thorough { 5 } else { 3 } {
+                    if total > if thorough { 4 } else { 3 } {
                         continue;
                     }
                     if embedded && (total > 3 || (!thorough && total > 2)) {
@@ -871,7 +871,7 @@ fn main() {
     c.rule = format!(
         "programs = kind{{auto,manual}} x storage{{boxed,embedded}} x (A: two threads, every legal op sequence over set/reset/try_wait/poll-own-waiter/drop-own-waiter, unordered pairs, total length <= {} | B: one waiter pre-registered by main and inherited by thread 2, total length <= {} | C: three threads, one op each (last thread <= {}), pre-registered waiter), at least one set; loom explores every interleaving with preemption bound {bound}; every execution's history + post-join probe checked for linearizability by exhaustive search; distinct = program; states = loom executions",
         if thorough { 5 } else { 4 },
-        if thorough { 5 } else { 3 },
+        if thorough { 4 } else { 3 },
         if thorough { 2 } else { 1 }
     );
     c.extra.insert("programs".into(), json!(names.len()));
